@@ -190,6 +190,57 @@ pub fn cmd_mutate(a: &Args) {
             }
         }
         tallies.push(t);
+        // (5) field-level mutants of the metadata (no CRC protects it, so every combination reaches the parser): each
+        // STREAMINFO field and the block header's flag / type / length set to boundary values, singly and in pairs
+        let mut t = Tally { class: "infofield", total: 0, err: 0, ok: 0, panic: 0 };
+        {
+            // (bit offset, width) of: last flag, block type, block length, min/max block size, min/max frame size,
+            // sample rate, channels - 1, bits - 1, total samples
+            let fields: [(usize, usize); 11] = [(32, 1), (33, 7), (40, 24), (64, 16), (80, 16), (96, 24), (120, 24), (144, 20), (164, 3), (167, 5), (172, 36)];
+            let set = |m: &mut [u8], (off, w): (usize, usize), v: u64| {
+                for i in 0..w {
+                    let bit = (v >> (w - 1 - i)) & 1;
+                    let (b, mask) = ((off + i) / 8, 0x80u8 >> ((off + i) % 8));
+                    if bit == 1 { m[b] |= mask } else { m[b] &= !mask }
+                }
+            };
+            let vals = |w: usize| -> Vec<u64> {
+                let all = if w >= 64 { u64::MAX } else { (1u64 << w) - 1 };
+                let mut v = vec![0u64, 1, all, all - 1, 1u64 << (w - 1), 15.min(all), 16.min(all), 34.min(all), 35.min(all)];
+                v.sort_unstable();
+                v.dedup();
+                v
+            };
+            let singles: Vec<(usize, u64)> = (0..fields.len()).flat_map(|f| vals(fields[f].1).into_iter().map(move |v| (f, v))).collect();
+            let mut run = |m: &[u8], t: &mut Tally, lines: &mut Vec<Value>, extra: &mut usize| {
+                t.total += 1;
+                match parse(m) {
+                    Res::Err => t.err += 1,
+                    Res::Ok(_) => t.ok += 1,
+                    Res::Panic(msg) => {
+                        t.panic += 1;
+                        if *extra < 400 {
+                            *extra += 1;
+                            lines.push(json!({"ev": "panic", "id": format!("{id}-infofield-panic-{}", t.total), "class": "infofield", "pos": 0, "mask": [], "trunc": -1, "msg": msg.chars().take(120).collect::<String>()}));
+                        }
+                    }
+                }
+            };
+            for (a, &(fa, va)) in singles.iter().enumerate() {
+                let mut m1 = bytes.clone();
+                set(&mut m1, fields[fa], va);
+                run(&m1, &mut t, &mut lines, &mut extra);
+                for &(fb, vb) in &singles[a + 1..] {
+                    if fb == fa {
+                        continue;
+                    }
+                    let mut m2 = m1.clone();
+                    set(&mut m2, fields[fb], vb);
+                    run(&m2, &mut t, &mut lines, &mut extra);
+                }
+            }
+        }
+        tallies.push(t);
         for t in &tallies {
             total_mutants += t.total;
             lines.push(json!({"ev": "agg", "id": format!("{id}-{}", t.class), "class": t.class, "total": t.total, "err": t.err, "ok": t.ok, "panic": t.panic}));
